@@ -6,6 +6,15 @@ import os
 HERE = os.path.dirname(os.path.dirname(os.path.abspath(__file__)))
 
 CHECKS = {
+    'C04': dict(
+        engine='sched', category='exploration', design='4/C04',
+        technique='controlled thread scheduler (bounded-preemption DFS + random) over real servicer threads; offline check of each observed outcome against all serial orders up to trial-id bijection; free-running stress judged by conservation invariants',
+        text=('~1900 (prefix, concurrent set) combos x 2 datastores; per combo every schedule with <=2 (quick) / <=3 (thorough) '
+              'pre-emptions at datastore-call / service-lock granularity (capped) plus random schedules - ~50k schedules per quick run; '
+              'deadlock detector, unfinished-operation scan, write monitor, persisted-algorithm-counter check; plus 8-12 free threads x '
+              '60-400 ops with unique payload ids checked for lost measurements / metadata / duplicate ids.'),
+        note=('Serial outcomes come from the real servicer run sequentially (serialisability only). Interleavings inside one datastore '
+              'call, sqlalchemy or grpc thread pools are only reached by the stress part.')),
     'C09': dict(
         engine='value-gen', category='exploration', design='4/C09',
         technique='round-trip and re-conversion monitors on every pyvizier<->proto converter over generated values + through-service read-back',
